@@ -334,6 +334,7 @@ func parseKeyValuePairs(remainder []byte, map_values MappingValues, errs []error
 	for {
 		if shouldStopLoop(pairCount, remainder, previousLength) {
 			errs = appendMaxPairsError(errs, pairCount)
+			errs = appendTrailingBytesError(errs, remainder)
 			break
 		}
 
@@ -362,6 +363,17 @@ func parseKeyValuePairs(remainder []byte, map_values MappingValues, errs []error
 func appendMaxPairsError(errs []error, pairCount int) []error {
 	if pairCount >= MAX_MAPPING_PAIRS {
 		errs = append(errs, oops.Errorf("exceeded maximum mapping pairs (%d)", MAX_MAPPING_PAIRS))
+	}
+	return errs
+}
+
+// appendTrailingBytesError reports bytes left inside the declared mapping that are
+// too few to form a key/value pair when nothing else has been reported. Such bytes
+// are not re-emitted by Mapping.Data(), so accepting them silently would let a
+// mapping parse without error and yet not re-serialise to the bytes it was read from.
+func appendTrailingBytesError(errs []error, remainder []byte) []error {
+	if len(errs) == 0 && len(remainder) > 0 {
+		errs = append(errs, oops.Errorf("mapping format violation: %d trailing byte(s) too few for a key/value pair", len(remainder)))
 	}
 	return errs
 }
@@ -502,7 +514,10 @@ func shouldStopParsing(err error) bool {
 func hasMinimumBytesForKeyValuePair(remainder []byte) bool {
 	// Minimum byte length required: 2 bytes for each string length,
 	// at least 1 byte per string, one byte for =, one byte for ;
-	if len(remainder) < 6 {
+	// Six bytes always suffice to attempt a pair. Fewer can still hold a complete
+	// pair with an empty or one-character key/value (e.g. a="" is 01 61 3d 00 3b),
+	// which must not be dropped.
+	if len(remainder) < 6 && !holdsCompleteShortPair(remainder) {
 		log.WithFields(logger.Fields{
 			"at":     "(Mapping) Values",
 			"reason": "mapping format violation",
@@ -563,4 +578,18 @@ func storeEncounteredKey(key_str I2PString, encounteredKeysMap map[string]bool) 
 	keyBytes, _ := key_str.Data()
 	keyAsString := string(keyBytes)
 	encounteredKeysMap[keyAsString] = true
+}
+
+// holdsCompleteShortPair reports whether fewer than six remaining bytes are exactly
+// long enough for the key/value pair their length bytes declare.
+func holdsCompleteShortPair(remainder []byte) bool {
+	// smallest pair: key length, '=', value length, ';'
+	if len(remainder) < 2*KEY_VAL_INTEGER_LENGTH+2 {
+		return false
+	}
+	valLenAt := KEY_VAL_INTEGER_LENGTH + int(remainder[0]) + 1
+	if valLenAt >= len(remainder) {
+		return false
+	}
+	return valLenAt+KEY_VAL_INTEGER_LENGTH+int(remainder[valLenAt])+1 <= len(remainder)
 }
